@@ -344,7 +344,8 @@ def foreign_vocabulary(code_t, ref_t):
     for group in ANTAGONISTS:
         if group & vr:
             allowed |= group
-    foreign = {o for o in vc - allowed}
+    # x[[i]] / x[i:i+1] (slice1) is always normalised to x[i] with a unit axis: never the reason for a mismatch
+    foreign = {o for o in vc - allowed if o != "slice1"}
     # Only operations that, in this code base, appear through equivalent re-writings of a
     # formula (explicit index arithmetic, einsum contractions, counting a mask, casts of a
     # count) make the comparison undecided; any other foreign operation (a different solver,
